@@ -436,9 +436,86 @@ def formula_stage(ck, rng, stats):
         sb.cleanup()
 
 
+def world_stage(ck, rng, stats):
+    """every message is evaluated against the world as it is when its turn comes: a directory created, or a file written, by the
+    command run for an earlier message decides the isdirectory / command conditions of the later ones (create-on-demand idiom)"""
+    for variant in range(4):
+        sb = mdrun.Sandbox()
+        box = sb.maildir('box'); box2 = sb.maildir('box2'); dst = sb.maildir('dst'); first = sb.maildir('first')
+        D = os.path.join(sb.root, 'made-on-demand')
+        n = rng.choice([2, 3, 4])
+        for i in range(n):
+            sb.add(box, 'new', b'To: a\nX-Id: w%d\n\nWORLD-%d\n' % (i, i))
+        if variant == 0:      # isdirectory, one maildir
+            rules = 'match ! isdirectory "%s" exec { "mkdir" "-p" "%s" } move "%s"\n\tmatch all move "%s"' % (D, D, first, dst)
+            heads = 'maildir "%s"' % box
+        elif variant == 1:    # isdirectory, two maildirs of one block
+            sb.add(box2, 'new', b'To: a\nX-Id: w9\n\nWORLD-9\n'); n += 1
+            rules = 'match ! isdirectory "%s" exec { "mkdir" "-p" "%s" } move "%s"\n\tmatch all move "%s"' % (D, D, first, dst)
+            heads = 'maildir { "%s" "%s" }' % (box, box2)
+        elif variant == 2:    # command condition reading a file an earlier exec wrote
+            rules = 'match ! command { "test" "-e" "%s" } exec { "touch" "%s" } move "%s"\n\tmatch all move "%s"' % (D, D, first, dst)
+            heads = 'maildir "%s"' % box
+        else:                 # the directory exists at first and is removed by the first message's command
+            os.makedirs(D)
+            rules = 'match isdirectory "%s" exec { "rmdir" "%s" } move "%s"\n\tmatch all move "%s"' % (D, D, first, dst)
+            heads = 'maildir "%s"' % box
+        conf = sb.write_conf(('%s {\n\t%s\n}\n' % (heads, rules)).encode())
+        rc, out, err = sb.run([], conf=conf)
+        stats['runs'] += 1; stats['world_cases'] = stats.get('world_cases', 0) + 1
+        nf, nd = len(sb.snapshot(first)), len(sb.snapshot(dst))
+        if rc != 0 or nf != 1 or nd != n - 1:
+            stats['viol'] += 1
+            ck.violation('%d messages, rules "%s": the first message changes what the condition tests, so exactly one message takes the first rule and %d the '
+                         'second; observed %d and %d (exit %d)' % (n, rules.replace(sb.root, ''), n - 1, nf, nd, rc),
+                         {'stage': 'world', 'variant': variant, 'exit': rc, 'stderr': err[-300:].decode(errors='replace')})
+        sb.cleanup()
+
+
+def macro_stage(ck, rng, stats):
+    """macros in rule trees: names that are prefixes / extensions of one another, defined in the file and on the command line (-D wins
+    over the file for the SAME name only); used as header name, pattern subject and destination"""
+    cases = [
+        # (file macros, -D macros, header-name macro, destination macro) -> the message with X-In goes to mdA, the other stays
+        ([('in', 'X-In'), ('dest', 'A')], [('inbox', 'X-Other'), ('destination', 'B')], 'in', 'dest'),
+        ([('inbox', 'X-Other'), ('in', 'X-In'), ('d', 'A')], [], 'in', 'd'),
+        ([('in', 'X-Other'), ('dest', 'B')], [('in', 'X-In'), ('dest', 'A'), ('i', 'X-Other'), ('des', 'B')], 'in', 'dest'),
+        ([('h', 'X-In'), ('hh', 'X-Other'), ('hhh', 'X-Other'), ('ma', 'A'), ('m', 'B')], [('hhhh', 'X-Other')], 'h', 'ma'),
+    ]
+    for filem, cmdm, hm, dm in cases:
+        sb = mdrun.Sandbox()
+        src = sb.maildir('src'); mdA = sb.maildir('A'); mdB = sb.maildir('B')
+        sb.add(src, 'new', b'To: a\nX-In: yes\n\nMACRO-1\n')
+        sb.add(src, 'new', b'To: a\nX-Other: yes\n\nMACRO-2\n')
+        val = lambda v: os.path.join(sb.root, v) if v in ('A', 'B') else v
+        used = {hm, dm}
+        text = ''.join('%s = "%s"\n' % (k, val(v)) for k, v in filem)
+        # every macro, also one given with -D, must be used (an unused macro is a configuration error): the others are mentioned in
+        # rules that cannot match
+        others = sorted(set(k for k, _ in filem + cmdm) - used)
+        extra = ''.join('\tmatch header "${%s}" /zzz-never/ move "%s"\n' % (k, mdB) for k in others)
+        text += 'maildir "%s" {\n%s\tmatch header "${%s}" /yes/ move "${%s}"\n}\n' % (src, extra, hm, dm)
+        conf = sb.write_conf(text.encode())
+        args = []
+        for k, v in cmdm:
+            args += ['-D', '%s=%s' % (k, val(v))]
+        rc, out, err = sb.run(args, conf=conf)
+        stats['runs'] += 1; stats['macro_cases'] = stats.get('macro_cases', 0) + 1
+        a = [b for b in sb.snapshot(mdA).values()]; b_ = sb.snapshot(mdB); left = [b for b in sb.snapshot(src).values()]
+        ok = rc == 0 and len(a) == 1 and b'MACRO-1' in a[0] and not b_ and len(left) == 1 and b'MACRO-2' in left[0]
+        if not ok:
+            stats['viol'] += 1
+            ck.violation('macros %r in the file and %r on the command line, rule header "${%s}" /yes/ move "${%s}": expected the X-In message in A and the '
+                         'other left alone; A holds %d, B %d, src %d (exit %d, %r)' % (filem, cmdm, hm, dm, len(a), len(b_), len(left), rc, err[-200:]),
+                         {'stage': 'macro', 'config': text, 'args': args, 'exit': rc})
+        sb.cleanup()
+
+
 def run(ck):
     rng = ck.rng
     stats = dict(runs=0, evals=0, dis=0, viol=0, clean=0, T1=0, T2=0, T3=0, nontrivial=set())
+    world_stage(ck, rng, stats)
+    macro_stage(ck, rng, stats)
     bystanders(ck, rng, stats)
     formula_stage(ck, rng, stats)
     paths_stage(ck, rng, stats)
@@ -468,7 +545,7 @@ def run(ck):
         'distinct_nontrivial': len(stats['nontrivial']),
         'rule': 'rule trees: a bounded-exhaustive family (<= 3 rules per block, depth <= 1, 6 conditions x 6 action lists, sub-sampled in the quick tier), a family with pass / break inside blocks nested one and two levels deep (all pairs of rules over 3 conditions x 6 action lists, 2 outer conditions, 3 continuations; every 17th in the quick tier) and random '
                 'trees (depth <= 3, <= 4 rules per block, and/or/!/parentheses/unparenthesised chains, pass/break as last action), each on all 8 truth assignments '
-                'of 3 matchers; plus 12 runs over a maildir holding non-message files (symbolic links to a matching message file / dangling / to a directory, a sub-directory, a FIFO) with file types reported and not reported by readdir; 8 formulas with negated / parenthesised isdirectory and command matchers taking back-references; 5 layouts of blocks naming several maildirs (string prefixes, a maildir nested in another, trailing slashes); non-trivial = the model or the documented semantics select at least one action; distinct = distinct (tree, assignment)',
+                'of 3 matchers; plus 12 runs over a maildir holding non-message files (symbolic links to a matching message file / dangling / to a directory, a sub-directory, a FIFO) with file types reported and not reported by readdir; 8 formulas with negated / parenthesised isdirectory and command matchers taking back-references; 5 layouts of blocks naming several maildirs (string prefixes, a maildir nested in another, trailing slashes); 4 runs in which the command of the first message changes what an isdirectory / command condition of the later ones tests; 4 macro layouts (names that are prefixes of one another, in the file and with -D) used as header name and destination; non-trivial = the model or the documented semantics select at least one action; distinct = distinct (tree, assignment)',
         'samples': samples,
         'traces_validated_against_impl': stats['evals'],
         'disagreements_checked': stats['dis'],
